@@ -24,7 +24,7 @@ MUTANTS = [
     # ---- C04
     ("C04", "sparse-subs-skip-delete-group", "pyttb/sptensor.py", "        if np.sum(idxb) > 0:\n            removesubs = tf[idxb]", "        if False and np.sum(idxb) > 0:\n            removesubs = tf[idxb]"),
     ("C04", "dense-linear-c-order", "pyttb/tensor.py", "        idx = tt_ind2sub(self.shape, idx)\n        actualIdx = tuple(idx.transpose())", "        idx = tt_ind2sub(self.shape, idx, order=\"C\")\n        actualIdx = tuple(idx.transpose())"),
-    ("C04", "dense-growth-wrong-corner", "pyttb/tensor.py", "                idx = [slice(None, currentShape) for currentShape in self.shape]\n                idx.extend([0] * (len(newsiz) - self.ndims))\n                newData[tuple(idx)] = self.data\n            self.data = newData\n\n            self.shape = tuple(newsiz)\n        if isinstance(value, ttb.tensor):", "                idx = [slice(-currentShape, None) for currentShape in self.shape]\n                idx.extend([0] * (len(newsiz) - self.ndims))\n                newData[tuple(idx)] = self.data\n            self.data = newData\n\n            self.shape = tuple(newsiz)\n        if isinstance(value, ttb.tensor):"),
+    ("C04", "dense-growth-wrong-corner", "pyttb/tensor.py", "                idx = [slice(None, currentShape) for currentShape in self.shape]\n                idx.extend([0] * (len(newsiz) - self.ndims))\n                newData[tuple(idx)] = self.data\n            self.data = newData\n\n            self.shape = tuple(newsiz)\n        try:", "                idx = [slice(-currentShape, None) for currentShape in self.shape]\n                idx.extend([0] * (len(newsiz) - self.ndims))\n                newData[tuple(idx)] = self.data\n            self.data = newData\n\n            self.shape = tuple(newsiz)\n        try:"),
     ("C04", "renumberdim-off-by-one", "pyttb/pyttb_utils.py", "        idx_map[number_range[i]] = int(i)", "        idx_map[number_range[i]] = int(i) + (1 if i == newshape - 1 and newshape > 2 else 0)"),
     ("C04", "irenumber-ignores-slice-start", "pyttb/pyttb_utils.py", "            start = r.start or 0\n            stop = r.stop or shape[i]", "            start = 0\n            stop = r.stop or shape[i]"),
     ("C04", "sparse-getitem-no-negative-fixup", "pyttb/sptensor.py", "                if isinstance(value, (int, np.integer)) and value < 0:\n                    value = self.shape[dim] + value  # noqa: PLW2901\n                region.append(value)", "                region.append(value)"),
